@@ -27,6 +27,7 @@
      jsonld/src/serializer/engine.rs  mark_list_node, populate_list, convert_rdf_object (Node arm)
      turtle/src/serializer/_pretty.rs find_subject
      api/src/term.rs             Term::constituents / to_constituents, atoms / to_atoms
+     turtle/src/serializer/nt.rs write_term, write_triple, NtSerializer::serialize_triples
    Definitions only. *)
 From Sophia.Common Require Export Prelude Term.
 
@@ -564,6 +565,71 @@ Fixpoint nesting (t : term) : nat :=
   end.
 
 (* ------------------------------------------------------------------------------------------ *)
+(** * nt::write_term / write_triple / NtSerializer::serialize_triples (turtle/src/serializer/nt.rs) *)
+(* ------------------------------------------------------------------------------------------ *)
+(* "http://www.w3.org/2001/XMLSchema#string" *)
+Definition xsd_string : str := [104; 116; 116; 112; 58; 47; 47; 119; 119; 119; 46; 119; 51; 46; 111; 114; 103; 47; 50; 48; 48; 49; 47; 88; 77; 76; 83; 99; 104; 101; 109; 97; 35; 115; 116; 114; 105; 110; 103].
+(* write_term: one frame; every arm is a sequence of write_all calls, the literal arm calls
+   quoted_string (the patched loop) on the UTF-8 bytes of the lexical form; the quoted-triple
+   arm calls write_triple (one more frame), which calls write_term on the three components:
+   the only recursion, one pair of frames per level of quotation. *)
+Fixpoint nt_term_c (t : term) : C (list N) :=
+  call (match t with
+        | Iri s => a <- write_all_c [60] ;; b <- write_all_c (utf8 s) ;; c <- write_all_c [62] ;;
+                   ret (a ++ b ++ c)
+        | Bnode s => a <- write_all_c [95; 58] ;; b <- write_all_c (utf8 s) ;; ret (a ++ b)
+        | LitDt lex dt =>
+            a <- write_all_c [34] ;; q <- quoted_string_loop_c (utf8 lex) ;;
+            if str_eqb dt xsd_string then c <- write_all_c [34] ;; ret (a ++ q ++ c)
+            else c <- write_all_c [34; 94; 94; 60] ;; d <- write_all_c (utf8 dt) ;;
+                 e <- write_all_c [62] ;; ret (a ++ q ++ c ++ d ++ e)
+        | LitLang lex tag =>
+            a <- write_all_c [34] ;; q <- quoted_string_loop_c (utf8 lex) ;;
+            c <- write_all_c [34; 64] ;; d <- write_all_c (utf8 tag) ;; ret (a ++ q ++ c ++ d)
+        | Triple s p o =>
+            a <- write_all_c [60; 60] ;;
+            b <- call (x <- nt_term_c s ;; s1 <- write_all_c [32] ;; y <- nt_term_c p ;;
+                       s2 <- write_all_c [32] ;; z <- nt_term_c o ;; ret (x ++ s1 ++ y ++ s2 ++ z)) ;;
+            c <- write_all_c [62; 62] ;; ret (a ++ b ++ c)
+        | Var s => a <- write_all_c [63] ;; b <- write_all_c (utf8 s) ;; ret (a ++ b)
+        end).
+Definition stmt := (term * term * term)%type.
+(* write_triple on a statement *)
+Definition nt_triple_c (t : stmt) : C (list N) :=
+  let '(s, p, o) := t in
+  call (x <- nt_term_c s ;; s1 <- write_all_c [32] ;; y <- nt_term_c p ;;
+        s2 <- write_all_c [32] ;; z <- nt_term_c o ;; ret (x ++ s1 ++ y ++ s2 ++ z)).
+(* serialize_triples: `source.try_for_each_triple(closure)`: the source's loop (one frame) calls
+   the closure (one frame) once per statement; the closure calls write_triple and write_all *)
+Fixpoint nt_doc_body (ts : list stmt) : C (list N) :=
+  match ts with
+  | [] => ret []
+  | t :: r => l <- call (a <- nt_triple_c t ;; b <- write_all_c [46; 10] ;; ret (a ++ b)) ;;
+              rest <- nt_doc_body r ;; ret (l ++ rest)
+  end.
+Definition nt_doc_c (ts : list stmt) : C (list N) := call (call (nt_doc_body ts)).
+
+(* the bytes written, without costs *)
+Fixpoint nt_term_p (t : term) : list N :=
+  match t with
+  | Iri s => 60 :: utf8 s ++ [62]
+  | Bnode s => 95 :: 58 :: utf8 s
+  | LitDt lex dt => 34 :: quoted_string_p (utf8 lex) ++
+                    (if str_eqb dt xsd_string then [34] else [34; 94; 94; 60] ++ utf8 dt ++ [62])
+  | LitLang lex tag => 34 :: quoted_string_p (utf8 lex) ++ [34; 64] ++ utf8 tag
+  | Triple s p o => [60; 60] ++ (nt_term_p s ++ [32] ++ nt_term_p p ++ [32] ++ nt_term_p o) ++ [62; 62]
+  | Var s => 63 :: utf8 s
+  end.
+Definition nt_triple_p (t : stmt) : list N :=
+  let '(s, p, o) := t in nt_term_p s ++ [32] ++ nt_term_p p ++ [32] ++ nt_term_p o.
+Definition nt_doc_p (ts : list stmt) : list N := flat_map (fun t => nt_triple_p t ++ [46; 10]) ts.
+(* deepest quotation in a document *)
+Definition stmt_nesting (t : stmt) : nat :=
+  let '(s, p, o) := t in Nat.max (nesting s) (Nat.max (nesting p) (nesting o)).
+Fixpoint doc_nesting (ts : list stmt) : nat :=
+  match ts with [] => O | t :: r => Nat.max (stmt_nesting t) (doc_nesting r) end.
+
+(* ------------------------------------------------------------------------------------------ *)
 (** * All operations together                                                                  *)
 (* ------------------------------------------------------------------------------------------ *)
 Inductive input :=
@@ -651,3 +717,9 @@ Definition mark_ok (n bad : N) (marked : list N) : bool :=
 Definition terms_eqb (a b : list term) : bool := list_eqb term_eqb a b.
 Definition constituents_ok (t : term) (cs atoms : list term) : bool :=
   terms_eqb (res (constituents_c t)) cs && terms_eqb (res (atoms_c t)) atoms.
+(* nt::write_term on a term of any kind / the document NtSerializer writes for a list of
+   statements: the bytes observed *)
+Definition nt_term_ok (t : term) (out : list N) : bool :=
+  list_eqb N.eqb (res (nt_term_c t)) out.
+Definition nt_doc_ok (ts : list stmt) (out : list N) : bool :=
+  list_eqb N.eqb (res (nt_doc_c ts)) out.
